@@ -70,6 +70,22 @@ def run(ctx: Ctx) -> dict:
         ops.append({"op": "bic.parts", "t": cps(t), "ai": False})
     for t in ("", "ABC", "GENODEM", "GENODEM1G", "GENODEM1GL", "GENODEM1GLSX", "genodem1gls", "GENO DE M1 GLS"):
         ops.append({"op": "bic.parts", "t": cps(t), "ai": True})
+    # IBANs that carry the key of a really listed bank (where the registry knows more about the bank
+    # code than the IBAN shows, the decomposition must still read the IBAN)
+    import c12
+    tbl = {gen.cc_of(r): r for r in table.values()} if isinstance(table, dict) else {gen.cc_of(r): r for r in table}
+    keys = {}
+    for e in c12.raw_entries():
+        if e["code"] and e["cc"] in tbl:
+            keys.setdefault(e["cc"], []).append(e["code"])
+    for cc, codes in sorted(keys.items()):
+        row = tbl[cc]
+        if gen.row_classes(row) is None:
+            continue
+        for code in rng.sample(sorted(set(codes)), min(len(set(codes)), 4 if ctx.quick else 40)):
+            placed = c12.place_key(row, gen.bban_for(row, rng), code)
+            if placed:
+                ops.append({"op": "iban.parts", "t": cps(cc + gen.check_digits(cc, placed) + placed), "ai": False})
     import fuzz
     ops = fuzz.extend(ctx, ops, "c11", n_seeds=800, quick=2000)
     events = calls.execute(ctx, ops, "c11")
